@@ -23,6 +23,8 @@ func main() {
 		cmdVerify(os.Args[2:])
 	case "check":
 		cmdCheck(os.Args[2:])
+	case "readloops":
+		cmdReadLoops(os.Args[2:])
 	case "scan":
 		cmdScan(os.Args[2:])
 	case "ranges":
